@@ -91,6 +91,18 @@ def _rand_scale(rng):
 
 
 def generate(ctx):
+    """All cases are drawn first so that every vm_compute evaluation of the run can
+    be batched into a few parallel coqc processes (coqc start-up dominates)."""
+    cases = list(_cases(ctx))
+    exprs = []
+    for r, a in cases:
+        if r in EXPRS: exprs += EXPRS[r](a)
+    _run_coq(ctx, [e for e in dict.fromkeys(exprs) if e not in _cache])
+    for c in cases:
+        yield c
+
+
+def _cases(ctx):
     rng = ctx.rng
     quick = ctx.tier == 'quick'
     # ---- Part A
@@ -311,30 +323,48 @@ def _tok(t):
     return float(t)
 
 
+_cache = {}
+
+
 def coq_eval(ctx, exprs):
     """Evaluates Gallina expressions over Model/Time64.v with vm_compute; returns
     for each expression the flat list of numbers printed (ints stay ints; floats
     are printed by Coq with 17 significant digits, i.e. exactly), or None."""
+    miss = [e for e in dict.fromkeys(exprs) if e not in _cache]
+    if miss: _run_coq(ctx, miss)
+    return [_cache.get(e) for e in exprs]
+
+
+def _cost(e):
+    m = re.search(r'N\.to_nat (\d+)%N', e)
+    return (int(m.group(1)) if m else 0) + len(e) // 8 + 2000
+
+
+def _run_coq(ctx, exprs, workers=4):
+    if not exprs: return
+    groups = [[] for _ in range(min(workers, len(exprs)))]; load = [0] * len(groups)
+    for e in sorted(exprs, key=_cost, reverse=True):
+        i = load.index(min(load)); groups[i].append(e); load[i] += _cost(e)
     d = tempfile.mkdtemp(prefix='c18_')
     try:
-        with open(os.path.join(d, 'cases.v'), 'w') as f:
-            f.write(_HEADER + ''.join('Eval vm_compute in (%s).\n' % e for e in exprs))
-        p = subprocess.run(['bash', '-c', 'ulimit -s unlimited 2>/dev/null || ulimit -s 1000000 2>/dev/null; '
-                            'timeout 1500 coqc -q -Q %s Dino cases.v' % core.COQ],
-                           cwd=d, stdout=subprocess.PIPE, stderr=subprocess.STDOUT, text=True)
-        if ctx.model is not None: ctx.model.calls += len(exprs)
-        if p.returncode != 0:
-            ctx.notes.append('coqc on generated cases failed: ' + p.stdout[-400:])
-            return [None] * len(exprs)
-        blocks = re.split(r'^\s*= ', p.stdout, flags=re.M)[1:]
-        if len(blocks) != len(exprs):
-            ctx.notes.append('coqc output: %d blocks for %d expressions' % (len(blocks), len(exprs)))
-            return [None] * len(exprs)
-        out = []
-        for b in blocks:
-            body = re.split(r'^\s*: ', b, flags=re.M)[0]
-            out.append([_tok(t) for t in _NUM.findall(body)])
-        return out
+        procs = []
+        for i, g in enumerate(groups):
+            with open(os.path.join(d, 'cases%d.v' % i), 'w') as f:
+                f.write(_HEADER + ''.join('Eval vm_compute in (%s).\n' % e for e in g))
+            procs.append(subprocess.Popen(['bash', '-c', 'ulimit -s unlimited 2>/dev/null || ulimit -s 1000000 2>/dev/null; '
+                                           'timeout 1700 coqc -q -Q %s Dino cases%d.v' % (core.COQ, i)],
+                                          cwd=d, stdout=subprocess.PIPE, stderr=subprocess.STDOUT, text=True))
+        for g, p in zip(groups, procs):
+            out = p.communicate()[0]
+            if ctx.model is not None: ctx.model.calls += len(g)
+            if p.returncode != 0:
+                ctx.notes.append('coqc on generated cases failed: ' + out[-400:]); continue
+            blocks = re.split(r'^\s*= ', out, flags=re.M)[1:]
+            if len(blocks) != len(g):
+                ctx.notes.append('coqc output: %d blocks for %d expressions' % (len(blocks), len(g))); continue
+            for e, b in zip(g, blocks):
+                body = re.split(r'^\s*: ', b, flags=re.M)[0]
+                _cache[e] = [_tok(t) for t in _NUM.findall(body)]
     finally:
         shutil.rmtree(d, ignore_errors=True)
 
@@ -359,6 +389,14 @@ def _bits_equal(name, ctx, impl, model):
                      {'first_bad': bad, 'impl': [mh[i] for i in bad] if bad != 'length' else len(mh)})
 
 
+def _e_td_dense(a): return ['deviations (td_roundtrip %s) (zrange (%d)%%Z 1%%Z (N.to_nat %d%%N))' % (_hexlit(_specs(a['scale'])[2]), a['a'], a['n'])]
+def _e_td_trace(a): return ['map (td_trace %s) %s' % (_hexlit(_specs(a['scale'])[2]), _zl(a['s']))]
+def _e_dt_trace(a): return ['map (dt_trace %s) %s' % (_hexlit(_specs(a['scale'])[2]), _zl(a['M']))]
+def _e_dt_dense(a): return ['deviations (dt_roundtrip %s) (zrange (%d)%%Z 1%%Z (N.to_nat %d%%N))' % (_hexlit(_specs(a['scale'])[2]), a['a'], a['n'])]
+def _e_time_axis(a): return ['map (nondim_td %s) %s' % (_hexlit(_specs(a['scale'])[2]), _zl(a['steps']))]
+EXPRS = {'td_dense': _e_td_dense, 'td_trace': _e_td_trace, 'dt_trace': _e_dt_trace, 'dt_dense': _e_dt_dense, 'time_axis': _e_time_axis}
+
+
 def _td_impl(specs, arr_s):
     td = np.asarray(arr_s, dtype=np.int64).astype('timedelta64[s]')
     nd = np.asarray(specs.nondimensionalize_timedelta64(td), dtype=np.float64)
@@ -372,7 +410,7 @@ def r_td_dense(ctx, a):
     nd, back = _td_impl(specs, s)
     dev = [[int(x), int(y)] for x, y in zip(s[back != s], back[back != s])]
     ctx.oracle('whole-second durations survive the round trip', not dev, {'T': T, 'first': dev[:5], 'count': len(dev)})
-    res = coq_eval(ctx, ['deviations (td_roundtrip %s) (zrange (%d)%%Z 1%%Z (N.to_nat %d%%N))' % (_hexlit(T), a['a'], a['n'])])[0]
+    res = coq_eval(ctx, _e_td_dense(a))[0]
     mdev = None if res is None else [[res[i], res[i + 1]] for i in range(0, len(res), 2)]
     ctx.exact('dimensionalize_timedelta64(nondimensionalize_timedelta64(s)): set of s not returned (dense)', dev, mdev)
     ctx.count('td:dense', a['n'])
@@ -394,7 +432,7 @@ def r_td_trace(ctx, a):
               [[x.hex() for x in sc_nd], sc_back])
     bad = [[x, int(y)] for x, y in zip(s, back) if x != y]
     ctx.oracle('whole-second durations survive the round trip', not bad, {'T': T, 'first': bad[:5], 'count': len(bad)})
-    res = coq_eval(ctx, ['map (td_trace %s) %s' % (_hexlit(T), _zl(s))])[0]
+    res = coq_eval(ctx, _e_td_trace(a))[0]
     if res is None or len(res) != 4 * len(s):
         ctx.exact('td_trace model evaluation', 'ok', 'failed'); return
     _bits_equal('nondimensionalize_timedelta64 bit-exact', ctx, nd, res[0::4])
@@ -441,7 +479,7 @@ def r_dt_trace(ctx, a):
     mins = np.asarray(specs.dimensionalize(nd, scales.units.minute).magnitude, dtype=np.float64)
     bad = [[m, str(x), str(y)] for m, x, y in zip(M, t, back) if x != y]
     ctx.oracle('calendar times survive the model-time round trip at minute resolution', not bad, {'T': T, 'first': bad[:3]})
-    res = coq_eval(ctx, ['map (dt_trace %s) %s' % (_hexlit(T), _zl(M))])[0]
+    res = coq_eval(ctx, _e_dt_trace(a))[0]
     if res is None or len(res) != 3 * len(M):
         ctx.exact('dt_trace model evaluation', 'ok', 'failed'); return
     _bits_equal('datetime64_to_nondim_time bit-exact', ctx, nd, res[0::3])
@@ -457,7 +495,7 @@ def r_dt_dense(ctx, a):
     m = backM != M
     dev = [[int(x), int(y)] for x, y in zip(M[m], backM[m])]
     ctx.oracle('calendar times survive the model-time round trip at minute resolution', not dev, {'T': T, 'first': dev[:3]})
-    res = coq_eval(ctx, ['deviations (dt_roundtrip %s) (zrange (%d)%%Z 1%%Z (N.to_nat %d%%N))' % (_hexlit(T), a['a'], a['n'])])[0]
+    res = coq_eval(ctx, _e_dt_dense(a))[0]
     mdev = None if res is None else [[res[i], res[i + 1]] for i in range(0, len(res), 2)]
     ctx.exact('nondim_time_to_datetime64(datetime64_to_nondim_time(t)): set of minutes not returned (dense)', dev, mdev)
     ctx.count('dt:dense', a['n'])
@@ -490,7 +528,7 @@ def r_time_axis(ctx, a):
         impl.append(float(xu.nondim_time_delta_from_time_axis(ax, specs)))
         axf = np.array([0.25, 0.25 + st / 7.0, 1.0])
         ctx.exact('float time axis passes through', float(xu.nondim_time_delta_from_time_axis(axf, specs)), float(axf[1] - axf[0]))
-    res = coq_eval(ctx, ['map (nondim_td %s) %s' % (_hexlit(T), _zl(a['steps']))])[0]
+    res = coq_eval(ctx, _e_time_axis(a))[0]
     _bits_equal('nondim_time_delta_from_time_axis bit-exact', ctx, impl, res)
 
 
